@@ -273,6 +273,17 @@ def check_layer_lookup_names(repo: Repo, res: Result) -> None:
             res.undecide("C05.R5", k, why, where(f, call))
         else:
             res.add("C05.R5", k, bverdict == "ok", why, where(f, call), kind="flow")
+    # order-based skipping: with adversarially named siblings every listed ancestor is still recognised (witness run)
+    from .c05_bisect import witness_fields
+    from .c05_walk import order_witness
+
+    for text, key, call in witness_fields(repo, list(reach)):
+        wverdict, wdetail = order_witness(repo, view, text, key)
+        k = f"{lookup.relpath}::LayerMapping.get_layer_for_module_name::no listed ancestor is skipped in the sorted list `{text}`"
+        if wverdict == "skipped":
+            res.observe(f"C05.R5 order witness for `{text}` not run: {wdetail}")
+        else:
+            res.add("C05.R5", k, wverdict == "ok", wdetail, where(lookup, lookup.node), kind="flow")
     res.add("C05.R5", "fixture::engine/fixtures/name_ops.py", True, names.fixture_selfcheck(), nontrivial=False)
     res.analysed["layer_lookup_functions"] = len(reach)
     res.analysed["layer_lookup_name_sites"] = n
